@@ -4,7 +4,8 @@ Lean: EmuVerif.Props.C30 (each DHD*Sparse @ v is the exact partial derivative of
 the real DHDOmegaSparse / DHDDeltaSparse / DHDPhiSparse / DHDUSparse vs Model.SvGrad on dyadic batches — exact (exact
 (cos, sin) table for exp(i phi), exp(i(phi+pi/2))). Oracle (always on): torch.autograd vs central finite differences
 through EvolveStateVector (1-3 chained steps), a full hand-built emu-sv run, and PCHIP1D (finiteness on flat runs).
-The Frechet-derivative / double-Krylov identity is assumed, validated by this oracle.
+The Frechet-derivative / double-Krylov identity: EmuVerif.Props.C30Frechet + harness/props/c30_frechet.py (second Lean stage,
+tape correspondence of `double_krylov`, dense Frechet-derivative oracles on `double_krylov` and `EvolveStateVector.backward`).
 """
 from __future__ import annotations
 
@@ -12,6 +13,7 @@ import json
 import math
 
 from harness.common import Driver, LeanError, Report, lean_stage, seeded
+from harness.props import c30_frechet
 
 REGISTRY = dict(
     text=("PARTIAL. Lean 4 theorems for every qubit number, all parameters and vectors: DHDDeltaSparse @ v = -n_k v and "
@@ -20,8 +22,19 @@ REGISTRY = dict(
           "are the exact partial derivatives, no limit involved; for the phase the exact rotation identity H(phi_k+theta) v = "
           "H v + sin(theta) DHDPhi_k v + (cos(theta)-1) (drive block of qubit k) v with the tape contract exp(i(phi+pi/2)) = "
           "-sin+i cos; the backward pass's slot i of each gradient is the trace against the finite difference in parameter i. "
-          "Assumed (not proved): the Frechet-derivative identity of the matrix exponential and the double-Lanczos decomposition "
-          "(FrechetDoubleKrylovContract), the Krylov accuracy, PCHIP's reverse-mode gradient. Validated on every run: autograd vs "
+          "Frechet part (Props/C30Frechet.lean, replaces the former assumption FrechetDoubleKrylovContract): [[A,E],[0,B]]^k = "
+          "[[A^k, D_k],[0,B^k]], D_k = sum_{j<k} A^j E B^(k-1-j) over any (non-commutative) semiring; (a+t e)^k = a^k + t D_k + t^2 R_k "
+          "with explicit R_k, and over the dual numbers; exp [[A,E],[0,B]] = [[exp A, L],[0, exp B]] with L = sum_k D_k/k! (HasSum, "
+          "Mathlib's NormedSpace.exp on complex matrices) and d/dt exp(A+tE) at 0 = L (HasDerivAt, non-commuting case); in the code's "
+          "convention (rows of Vs, Vg = Lanczos vectors): for anti-Hermitian A = -i dt H, exact Lanczos relations A Vs^T = Vs^T Ts, "
+          "A Vg^T = Vg^T Tg, orthonormal Vg, state = ||s|| Vs[0], grad = ||g|| Vg[0]: L(A, |state><grad|) = Vs^T dS Vg* with dS = "
+          "top-right block of exp [[Ts, ||s|| ||g|| e0 e0^T],[0, Tg]] (Tg unconjugated BECAUSE A is anti-Hermitian), "
+          "<g| L(A, -i dt dH) |psi> = -i dt tr(Vg* dH Vs^T dS) (the number backward stores) and <g|exp(A)x> = <exp(-A)g|x> (state "
+          "gradient); bookkeeping model of double_krylov/lanczos (block_diag, corner entry [0,size_s], slice [:size_s,size_s:], sizes, "
+          "RecursionError only) tied to the code by an exact tape correspondence. "
+          "Assumed (not proved): the Lanczos relations hold exactly (happy breakdown of both runs) - the truncation error of an accepted "
+          "error estimate is measured against the dense Frechet derivative on every run; torch.matrix_exp is an oracle; the Krylov "
+          "accuracy, PCHIP's reverse-mode gradient. Validated on every run: autograd vs "
           "central finite differences (1-5 atoms, omega/delta/phi/interaction matrix/initial state, zero phases, zero and "
           "constant drives, chained steps, a full emu-sv run) and finite PCHIP1D gradients on flat runs."),
     note=("Trusted: Lean kernel + propext/Classical.choice/Quot.sound; Mathlib; Model.SvGrad tied by exact correspondence; "
@@ -139,6 +152,22 @@ def fd_compare(torch, f, params, grads, rng, max_entries=6):
                 fd = (fp - fm) / (2 * FD_STEP)
                 ad = float(part(g.reshape(-1)[idx])) if g.is_complex() else float(g.reshape(-1)[idx])
                 excess = abs(ad - fd) - (ATOL_FD + RTOL_FD * max(abs(ad), abs(fd)))
+                if excess > 0:
+                    # the emulated result is only accurate to the Krylov tolerance (1e-12) and not smooth at that level, so a
+                    # step of 1e-6 carries noise ~1e-12/1e-6 (seen: thorough seed 0, case 174, 2.3e-7 on a state entry while the
+                    # 4th-order difference with step 1e-4 agrees to 3e-10). A discrepancy counts only if it is confirmed by
+                    # that second, noise-robust difference quotient.
+                    h = 100 * FD_STEP
+                    vals = []
+                    with torch.no_grad():
+                        for mult in (1, -1, 2, -2):
+                            p.reshape(-1)[idx] = old + mult * h * d
+                            vals.append(float(f()))
+                        p.reshape(-1)[idx] = old
+                    fd4 = (8 * (vals[0] - vals[1]) - (vals[2] - vals[3])) / (12 * h)
+                    ex4 = abs(ad - fd4) - (ATOL_FD + RTOL_FD * max(abs(ad), abs(fd4)))
+                    if ex4 < excess:
+                        excess, fd = ex4, fd4
                 if excess > worst:
                     worst, detail = excess, f"{name}[{idx}]{'(imag)' if d == 1j else ''}: autograd {ad:.9e} vs finite difference {fd:.9e}"
     return worst, detail
@@ -421,7 +450,8 @@ def check(rep: Report, tier: str, seed: int) -> None:
                 "phase; full emu-sv runs of 2-4 steps on 1-4 atoms incl. flat drive segments; PCHIP1D with flat runs, constant and "
                 "monotone samples; central differences with step 1e-6 in up to 6 random entries of each parameter")
     rep.assumptions = [
-        "Frechet-derivative identity of exp and the double-Lanczos decomposition (backward) are assumed; validated by finite differences",
+        "Frechet-derivative identity of exp and the double-Lanczos decomposition (backward): proved in Props/C30Frechet.lean for exact "
+        "Lanczos relations; truncation error and the torch kernels measured against the dense Frechet derivative",
         "tape contract exp(i(phi+pi/2)) = -sin(phi) + i cos(phi) (validated: deviation < 1e-15)",
         "PCHIP is not differentiable in the samples at flat points: there only finiteness is checked",
         "differentiation through real Pulser waveform objects is not exercised",
@@ -431,7 +461,12 @@ def check(rep: Report, tier: str, seed: int) -> None:
     t0 = time.time()
     lean_stage(rep, PROP_MODULE, AUDIT, thorough=(tier == "thorough"))
     rep.extra["t_lean_stage_s"] = round(time.time() - t0, 1)
+    stage2 = c30_frechet.LeanStage2(tier, seed)      # Props/C30Frechet.lean: built + audited while the Python side runs
+    stage2.start()
     quick = tier == "quick"
+    t1 = time.time()
+    c30_frechet.run(rep, tier, seed, Driver())
+    rep.extra["t_frechet_python_s"] = round(time.time() - t1, 1)
     correspondence(rep, seeded(seed * 7919 + 30), tier)
     oracle_evolve(rep, seeded(seed * 104729 + 30), 30 if quick else 300)
     oracle_full_run(rep, seeded(seed * 1299709 + 30), 4 if quick else 30)
@@ -439,12 +474,16 @@ def check(rep: Report, tier: str, seed: int) -> None:
     probe_energy_grad(rep, seeded(seed * 49979687 + 30))
     probe_zero_phase_energy(rep, seeded(seed * 86028121 + 30))
     probe_unnormalised(rep, seeded(seed * 67867967 + 30))
+    t2 = time.time()
+    stage2.merge(rep)
+    rep.extra["t_lean_stage2_wait_s"] = round(time.time() - t2, 1)
     rep.extra["t_total_s"] = round(time.time() - t0, 1)
     if rep.broken and not rep.failing:
         search(rep, seed, 40 if quick else 400)
 
 
 def search(rep: Report, seed: int, count: int) -> None:
+    c30_frechet.search(rep, seed, count)
     oracle_evolve(rep, seeded(seed * 32452843 + 30), count)
     rep.extra["search_cases"] = count
 
@@ -455,6 +494,10 @@ def replay(rep: Report, path: str) -> int:
     bad = 0
     for f_ in data.get("failing_inputs", []):
         d = f_["data"]
+        r = c30_frechet.replay_one(d)
+        if r is not None:
+            bad += r
+            continue
         if d.get("kind") == "pchip":
             from emu_base.math.pchip_torch import PCHIP1D
             x = torch.tensor(d["x"], dtype=torch.float64)
@@ -476,7 +519,7 @@ def replay(rep: Report, path: str) -> int:
             params = dict(omega=om, delta=de, phi=ph, U=U, state=st)
 
             def f():
-                psi = st
+                psi = st.clone()                 # krylov_exp normalises the tensor it is given in place (see evolve_case)
                 for t in range(steps):
                     psi, _ = EvolveStateVector.apply(0.2, om[t], de[t], ph[t], U, psi, 1e-12, None)
                 return (psi.abs() ** 2 * torch.arange(2 ** n, dtype=torch.float64)).sum()
